@@ -181,6 +181,9 @@ func init() {
 				scn.Hd.Comp = comp
 				scn.Hd.Frames[0].Z = true
 			}
+			if ls.Declared {
+				scn.Hd.CLen = "exact"
+			}
 		}
 		if ls.Split {
 			scn.Cl.Chunks = []int{100}
